@@ -154,6 +154,24 @@ def run_check(tier, seed):
         if out_of(x[1]) != s:
             viol("fixed_point_pep440_renderings", "PEP 440 rendering is not a fixed point of re-conversion", [s, x[1]])
 
+    # 3b. more than three release numbers (the SemVer rendering carries the further ones as leading numeric identifiers:
+    # theorem c07_semver_rendering_of_pep440_fixed_point), and every rendering re-read with the input format auto-detected - the command's default
+    peps4 = []
+    for _ in range(n // 2):
+        d = rand_fields(rng, big=False)
+        d["release"] = (list(d["release"]) + [rng.choice([0, 1, 4, 7, 20240315, rng.randint(0, 2 ** 32 - 1)]) for _ in range(6)])[:rng.randint(4, 6)]
+        peps4.append(spell(rng, d))
+    r4 = correspond(run, "pep440_more_than_three_release_numbers_to_semver", [cnv(rng.choice(["pep440", "pep440", "auto"]), "semver", p) for p in peps4], **kw)
+    sv4 = [out_of(x[1]) for x in r4]
+    sv4 = [s for s in sv4 if s is not None]
+    for fmt_in in ("semver", "auto"):
+        again = sv4 + (fixed_sv[:len(sv4)] if fmt_in == "auto" else [])
+        rr = correspond(run, f"semver_renderings_reread_as_{fmt_in}", [cnv(fmt_in, "semver", s) for s in again], **kw)
+        for s, x in zip(again, rr):
+            if out_of(x[1]) != s:
+                viol(f"semver_renderings_reread_as_{fmt_in}", f"SemVer rendering of a PEP 440 input is not a fixed point of re-conversion (input format {fmt_in})", [s, x[1]])
+    correspond(run, "pep440_renderings_reread_as_auto", [cnv("auto", "pep440", s) for s in fixed_pp[:n // 2]], **kw)
+
     # 4. no silent change: SemVer inputs with numbers beyond u32 rendered to PEP 440
     big = []
     for _ in range(n // 3):
@@ -188,6 +206,6 @@ def run_check(tier, seed):
 
 
 RULE = ("requests are `zerv render` conversions chained as the property describes: canonical-shape SemVer -> SemVer / -> PEP 440 -> back; random PEP 440 "
-        "spellings (<= 3 release numbers) -> SemVer -> PEP 440; every rendering re-converted (fixed points); numbers up to 2^32-1 where PEP 440 is "
+        "spellings (<= 3 release numbers) -> SemVer -> PEP 440; PEP 440 with four to six release numbers -> SemVer; every rendering re-converted (fixed points), with the input format given and auto-detected; numbers up to 2^32-1 where PEP 440 is "
         "involved, up to 2^64-1 on SemVer-only paths and beyond for the no-silent-change clause; each hop is compared with the model and each chain "
         "is judged on the implementation's own strings; non-trivial = a successful conversion between different formats")
